@@ -84,6 +84,10 @@ def make_judges(ctx):
             if not (is_double(v) and is_double(d) and is_double(u) and is_double(u * F(2) ** post.n_frac)):
                 ctx.skip('store:an intermediate is not an exact double')
                 return
+            if abs(u * F(2) ** post.n_frac) >= 2 ** 62:
+                # (the core domain of C01, which this property wraps: |v * 2^n_frac| < 2^62; reachable here through inferred formats of 17..60 bits)
+                ctx.skip('store:transformed value outside the core domain (scaled magnitude >= 2^62)')
+                return
             us.append(u)
         if ev.exc is not None:
             ctx.violation('raises', 'storing into a scaled %s raised %s: %s' % (R.dtype_fxp(*post.fmt()), type(ev.exc).__name__, str(ev.exc)[:100]), ev, key='scaled.store_raises')
